@@ -1046,6 +1046,31 @@ theorem runIndexRangeNum_fixed_total (fx : Fx) (hf : fx.range = true) (hs : fx.s
       | err => simp
       | ok i => simp [ho]
 
+/-- the range arm of `run_slice` (commit 0ead920) subtracts and adds unchecked; today the pattern's
+size test panics first (F-C06-7), after fix-5 this arithmetic must wrap as well -/
+theorem runSliceRange_panic_witness :
+    runSliceRangeG Fx.none ⟨some (-9223372036854775808), some (9223372036854775807, false)⟩ 1 false = .panic := by
+  decide
+
+theorem runSliceRange_fixed_total (fx : Fx) (hf : fx.range = true) (r : KRange) (h : KRange.wf r)
+    (index : Int) (hi : inI8 index) (sliceTo : Bool) : runSliceRangeG fx r index sliceTo ≠ .panic := by
+  obtain ⟨s, e, hok, hle⟩ := asBoundedRange_fixed_total fx hf r
+  unfold runSliceRangeG; rw [hok]; simp only [hf, ite_true, bind_ok]
+  -- the bounds of a well-formed range are i64 values, so the size fits a usize
+  have hb : inI64 s ∧ e ≤ I64_MAX := by
+    have ht := triple_wf r h
+    unfold asBoundedRangeG at hok
+    generalize r.triple = t at ht hok
+    obtain ⟨s0, e0, incl⟩ := t
+    simp only [hf, ite_true] at hok ht
+    cases incl
+    · simp at hok; obtain ⟨h1, h2⟩ := hok; subst h1; subst h2; exact ⟨ht.1, by arith⟩
+    · simp at hok; obtain ⟨h1, h2⟩ := hok; subst h1; subst h2; exact ⟨ht.1, by arith⟩
+  obtain ⟨i0, hi0, _⟩ := signedIndexToUnsigned_total index (e - s) hi (by arith)
+  rw [hi0]; simp
+
+example : runSliceRangeG Fx.none ⟨some 1, some (5, false)⟩ 1 false = .ok (2, 5) := by decide
+
 /-- fix-1: `%=` never panics -/
 theorem runRemainderAssign_fixed_total (fx : Fx) (hf : fx.rem = true) (a b : Int) :
     runRemainderAssignG fx a b ≠ .panic := by
